@@ -160,40 +160,14 @@ theorem revertState_other (a b : Addr) (k : String) (prev : KV String Bytes) (st
       intro e; injection e with e1 _; exact hne e1.symm
     simp only [this, if_false]
 
-/-- **storage**: applying the previous values of the changed keys after the commit of those keys restores the table,
+/-- **storage**: applying the previous values of the changed keys to a table that agrees (as bytes: a missing key and an
+empty value are the same, `bytes.Equal`) with the committed one on the account's keys restores what the table held,
 provided the origin values of the changed keys are what the table held -/
-theorem revert_commit_state (a : Addr) (origin dirty : KV String Bytes) (st : KV (Addr × String) String)
-    (hcoh : ∀ p ∈ dirty, chg origin p = true → (KV.get origin p.1).getD none = KV.get st (a, p.1))
-    (key : Addr × String) :
-    KV.get (revertState a ((dirty.filter (chg origin)).map (fun p => (p.1, (KV.get origin p.1).getD none)))
-      (commitState a origin dirty st)) key = KV.get st key := by
-  obtain ⟨b, k⟩ := key
-  rw [revertState_get a b k (fun k => (KV.get origin k).getD none) _
-    (by intro p hp; obtain ⟨q, _, rfl⟩ := List.mem_map.mp hp; rfl)]
-  by_cases hin : b = a ∧ k ∈ ((dirty.filter (chg origin)).map (fun p => (p.1, (KV.get origin p.1).getD none))).map (·.1)
-  · simp only [hin, and_self, if_true]
-    obtain ⟨hb, hk⟩ := hin
-    simp only [List.map_map, List.mem_map, List.mem_filter, Function.comp] at hk
-    obtain ⟨q, ⟨hq, hc⟩, rfl⟩ := hk
-    subst hb
-    exact hcoh q hq hc
-  · simp only [hin, if_false]
-    apply commitState_untouched
-    by_cases hb : b = a
-    · right
-      intro p hp hc e
-      apply hin
-      refine ⟨hb, ?_⟩
-      simp only [List.map_map, List.mem_map, List.mem_filter, Function.comp]
-      exact ⟨p, ⟨hp, hc⟩, e⟩
-    · exact Or.inl hb
-
-/-- slice version: the table the entry is applied to need only agree with the committed table on the account's keys -/
 theorem revert_commit_state_at (a : Addr) (origin dirty : KV String Bytes) (st st2 : KV (Addr × String) String)
-    (hcoh : ∀ p ∈ dirty, chg origin p = true → (KV.get origin p.1).getD none = KV.get st (a, p.1))
-    (hsame : ∀ k, KV.get st2 (a, k) = KV.get (commitState a origin dirty st) (a, k)) (k : String) :
-    KV.get (revertState a ((dirty.filter (chg origin)).map (fun p => (p.1, (KV.get origin p.1).getD none))) st2) (a, k)
-      = KV.get st (a, k) := by
+    (hcoh : ∀ p ∈ dirty, chg origin p = true → ((KV.get origin p.1).getD none).getD "" = (KV.get st (a, p.1)).getD "")
+    (hsame : ∀ k, (KV.get st2 (a, k)).getD "" = (KV.get (commitState a origin dirty st) (a, k)).getD "") (k : String) :
+    (KV.get (revertState a ((dirty.filter (chg origin)).map (fun p => (p.1, (KV.get origin p.1).getD none))) st2) (a, k)).getD ""
+      = (KV.get st (a, k)).getD "" := by
   rw [revertState_get a a k (fun k => (KV.get origin k).getD none) _
     (by intro p hp; obtain ⟨q, _, rfl⟩ := List.mem_map.mp hp; rfl)]
   by_cases hin : k ∈ ((dirty.filter (chg origin)).map (fun p => (p.1, (KV.get origin p.1).getD none))).map (·.1)
@@ -203,6 +177,7 @@ theorem revert_commit_state_at (a : Addr) (origin dirty : KV String Bytes) (st s
     exact hcoh q hq hc
   · simp only [hin, and_false, if_false]
     rw [hsame]
+    congr 1
     apply commitState_untouched
     right
     intro p hp hc e
@@ -379,9 +354,12 @@ theorem codeR_parts (db : DB) (e : JEntry) :
 
 -- ------------------------------------------------------------------ one account
 
-/-- the two databases agree on everything that belongs to address `b` -/
+/-- the two databases agree on everything that belongs to address `b`: the same account record, the same code, and under
+every storage key the same bytes (a key that is missing and a key with an empty value are the same value, as for every
+read path of the ledger) -/
 def SameAt (b : Addr) (x y : DB) : Prop :=
-  KV.get x.acct b = KV.get y.acct b ∧ KV.get x.code b = KV.get y.code b ∧ ∀ k, KV.get x.state (b, k) = KV.get y.state (b, k)
+  KV.get x.acct b = KV.get y.acct b ∧ KV.get x.code b = KV.get y.code b ∧
+  ∀ k, (KV.get x.state (b, k)).getD "" = (KV.get y.state (b, k)).getD ""
 
 theorem SameAt.refl (b : Addr) (x : DB) : SameAt b x x := ⟨rfl, rfl, fun _ => rfl⟩
 theorem SameAt.trans {b : Addr} {x y z : DB} (h1 : SameAt b x y) (h2 : SameAt b y z) : SameAt b x z :=
@@ -392,7 +370,8 @@ theorem SameAt.symm {b : Addr} {x y : DB} (h : SameAt b x y) : SameAt b y x :=
 /-- the origin fields of the account object mirror the database (what `GetAccount` / `GetState` / `Code` loaded) -/
 def Coh (db : DB) (a : Addr) (acc : Acct) : Prop :=
   acc.originAcc = KV.get db.acct a ∧
-  (∀ p ∈ acc.dirtyState, chg acc.originState p = true → (KV.get acc.originState p.1).getD none = KV.get db.state (a, p.1)) ∧
+  (∀ p ∈ acc.dirtyState, chg acc.originState p = true →
+    ((KV.get acc.originState p.1).getD none).getD "" = (KV.get db.state (a, p.1)).getD "") ∧
   acc.originCode = KV.get db.code a
 
 /-- the journal entry `getJournalIfModified` builds for an account object -/
@@ -488,8 +467,8 @@ theorem revert_commit_at (D D2 : DB) (a : Addr) (acc : Acct) (hcoh : Coh D a acc
       simp [hc']
   · intro k
     rw [c1, s1, a1]
-    show KV.get (revertState a ((acc.dirtyState.filter (chg acc.originState)).map
-      (fun p => (p.1, (KV.get acc.originState p.1).getD none))) D2.state) (a, k) = _
+    show (KV.get (revertState a ((acc.dirtyState.filter (chg acc.originState)).map
+      (fun p => (p.1, (KV.get acc.originState p.1).getD none))) D2.state) (a, k)).getD "" = _
     apply revert_commit_state_at a acc.originState acc.dirtyState D.state D2.state h2
     intro k'
     rw [hs.2.2 k', commitAcct_state]
@@ -628,7 +607,7 @@ theorem flushItems_sublist (l : L) (xs : List (Addr × Acct)) :
     simp only [List.map_cons, List.filterMap_cons]
     cases (journalOf l x.1 x.2).1 with
     | none => exact List.Sublist.cons _ ih
-    | some e => exact List.Sublist.cons₂ _ ih
+    | some e => exact List.Sublist.cons_cons _ ih
 
 theorem flushItems_mem (l : L) (p : Item) (hp : p ∈ flushItems l) :
     ∃ acc, (p.1, acc) ∈ l.accounts ∧ p.2 = loadOrigin l p.1 acc := by
@@ -720,5 +699,153 @@ theorem rollback_one (l l2 : L) (t : Nat) (bj : BlockJournal) (hm : l.maxJ = t +
     · injection hr with hr
       subst hr
       exact ⟨rfl, rfl, rfl⟩
+
+-- ------------------------------------------------------------------ the loop of `RollbackState` over several heights
+
+/-- the two databases hold the same accounts, code and storage (journals and height markers aside) -/
+def Same (x y : DB) : Prop := ∀ b, SameAt b x y
+
+theorem revertEntry_meta (db : DB) (e : JEntry) :
+    (revertEntry db e).journals = db.journals ∧ (revertEntry db e).minH = db.minH ∧ (revertEntry db e).maxH = db.maxH := by
+  rw [revertEntry_eq]
+  have hs := revertEntry_fold e.addr e.prevStates (acctR db e)
+  have ha : (acctR db e).journals = db.journals ∧ (acctR db e).minH = db.minH ∧ (acctR db e).maxH = db.maxH := by
+    unfold acctR; split
+    · split <;> exact ⟨rfl, rfl, rfl⟩
+    · exact ⟨rfl, rfl, rfl⟩
+  have hc : ∀ d : DB, (codeR d e).journals = d.journals ∧ (codeR d e).minH = d.minH ∧ (codeR d e).maxH = d.maxH := by
+    intro d; unfold codeR; split
+    · split <;> exact ⟨rfl, rfl, rfl⟩
+    · exact ⟨rfl, rfl, rfl⟩
+  obtain ⟨c1, c2, c3⟩ := hc (stateR (acctR db e) e)
+  exact ⟨c1.trans (hs.2.2.2.1.trans ha.1), c2.trans (hs.2.2.2.2.1.trans ha.2.1), c3.trans (hs.2.2.2.2.2.trans ha.2.2)⟩
+
+theorem reverts_journals (items : List Item) (db : DB) : (reverts items db).journals = db.journals := by
+  unfold reverts
+  induction items generalizing db with
+  | nil => rfl
+  | cons p rest ih => simp only [List.map_cons, List.foldl_cons]; rw [ih]; exact (revertEntry_meta db _).1
+
+theorem revertState_congr (a : Addr) (prev : KV String Bytes) (st st' : KV (Addr × String) String)
+    (h : ∀ key, (KV.get st key).getD "" = (KV.get st' key).getD "") (key : Addr × String) :
+    (KV.get (revertState a prev st) key).getD "" = (KV.get (revertState a prev st') key).getD "" := by
+  unfold revertState
+  induction prev generalizing st st' with
+  | nil => exact h key
+  | cons p rest ih =>
+    simp only [List.foldl_cons]
+    apply ih
+    intro key'
+    rw [get_putB, get_putB]
+    split
+    · rfl
+    · exact h key'
+
+theorem revertEntry_congr (x y : DB) (e : JEntry) (h : Same x y) : Same (revertEntry x e) (revertEntry y e) := by
+  intro b
+  rw [revertEntry_eq, revertEntry_eq]
+  obtain ⟨c1, c2, c3⟩ := codeR_parts (stateR (acctR x e) e) e
+  obtain ⟨s1, s2, s3⟩ := stateR_parts (acctR x e) e
+  obtain ⟨a1, a2, a3⟩ := acctR_parts x e
+  obtain ⟨c1', c2', c3'⟩ := codeR_parts (stateR (acctR y e) e) e
+  obtain ⟨s1', s2', s3'⟩ := stateR_parts (acctR y e) e
+  obtain ⟨a1', a2', a3'⟩ := acctR_parts y e
+  refine ⟨?_, ?_, ?_⟩
+  · rw [c2, s2, a3, c2', s2', a3', (h b).1]
+  · rw [c3, s3, a2, c3', s3', a2', (h b).2.1]
+  · intro k
+    rw [c1, s1, a1, c1', s1', a1']
+    apply revertState_congr
+    intro key
+    exact (h key.1).2.2 key.2
+
+theorem reverts_congr (items : List Item) (x y : DB) (h : Same x y) : Same (reverts items x) (reverts items y) := by
+  unfold reverts
+  induction items generalizing x y with
+  | nil => exact h
+  | cons p rest ih => simp only [List.map_cons, List.foldl_cons]; exact ih _ _ (revertEntry_congr x y _ h)
+
+theorem revertBlocks_congr (bs : List (List Item)) (x y : DB) (h : Same x y) : Same (revertBlocks bs x) (revertBlocks bs y) := by
+  induction bs with
+  | nil => exact h
+  | cons items rest ih => exact reverts_congr items _ _ ih
+
+theorem revertBlocks_concat (bs : List (List Item)) (last : List Item) (D : DB) :
+    revertBlocks (bs ++ [last]) D = revertBlocks bs (reverts last D) := by
+  induction bs with
+  | nil => rfl
+  | cons items rest ih => simp only [List.cons_append, revertBlocks, ih]
+
+/-- the blocks at heights `t+1 … t+n`, oldest first -/
+def blocksOf (J : Nat → List Item) (t : Nat) : Nat → List (List Item)
+  | 0 => []
+  | n+1 => blocksOf J t n ++ [J (t + n + 1)]
+
+/-- **the loop of `RollbackState`**: when the journals of the heights `t+1 … t+n` are the entries of the blocks `J`, the
+loop from `t+n` down to `t` succeeds and leaves what applying those journals, newest first, leaves -/
+theorem rollbackLoop_spec (J : Nat → List Item) (t n : Nat) (db : DB)
+    (hj : ∀ j, t < j → j ≤ t + n → ∃ bj, KV.get db.journals j = some bj ∧ bj.entries = (J j).map (fun p => entryOf p.1 p.2)) :
+    ∃ db', rollbackLoop db t n (t + n) = (db', true) ∧ Same db' (revertBlocks (blocksOf J t n) db) ∧
+      (∀ j, j ≤ t → KV.get db'.journals j = KV.get db.journals j) := by
+  induction n generalizing db with
+  | zero => exact ⟨db, rfl, fun b => SameAt.refl b db, fun _ _ => rfl⟩
+  | succ n ih =>
+    obtain ⟨bj, hbj, hent⟩ := hj (t + (n + 1)) (by omega) (by omega)
+    have h1 : ¬ (t + (n + 1) ≤ t) := by omega
+    have hstep : rollbackLoop db t (n + 1) (t + (n + 1)) =
+        rollbackLoop { (bj.entries.foldl revertEntry db) with
+          journals := KV.erase (bj.entries.foldl revertEntry db).journals (t + (n + 1)), maxH := t + (n + 1) - 1 } t n (t + n) := by
+      simp only [rollbackLoop, h1, if_false, hbj]
+      rfl
+    have hrev : bj.entries.foldl revertEntry db = reverts (J (t + n + 1)) db := by
+      unfold reverts; rw [hent]; rfl
+    rw [hrev] at hstep
+    have hjr : (reverts (J (t + n + 1)) db).journals = db.journals := reverts_journals _ db
+    obtain ⟨db', hl, hsame, hjs⟩ := ih
+      { (reverts (J (t + n + 1)) db) with journals := KV.erase (reverts (J (t + n + 1)) db).journals (t + (n + 1)), maxH := t + (n + 1) - 1 }
+      (by
+        intro j h1 h2
+        obtain ⟨bj2, hb2, he2⟩ := hj j h1 (by omega)
+        refine ⟨bj2, ?_, he2⟩
+        show KV.get (KV.erase (reverts (J (t + n + 1)) db).journals (t + (n + 1))) j = some bj2
+        rw [KV.get_erase_ne _ _ _ (by omega), hjr]
+        exact hb2)
+    refine ⟨db', hstep.trans hl, ?_, ?_⟩
+    · intro b
+      refine (hsame b).trans ?_
+      show SameAt b _ (revertBlocks (blocksOf J t n ++ [J (t + n + 1)]) db)
+      rw [revertBlocks_concat]
+      have hS : Same ({ (reverts (J (t + n + 1)) db) with
+          journals := KV.erase (reverts (J (t + n + 1)) db).journals (t + (n + 1)), maxH := t + (n + 1) - 1 } : DB)
+          (reverts (J (t + n + 1)) db) := fun b' => ⟨rfl, rfl, fun _ => rfl⟩
+      exact revertBlocks_congr (blocksOf J t n) _ _ hS b
+    · intro j hjt
+      rw [hjs j hjt]
+      show KV.get (KV.erase (reverts (J (t + n + 1)) db).journals (t + (n + 1))) j = _
+      rw [KV.get_erase_ne _ _ _ (by omega), hjr]
+
+/-- `RollbackState` over `n ≥ 1` heights: what it leaves in the state store is what applying the journals of the heights
+`t+1 … t+n`, newest first, leaves -/
+theorem rollback_spec (J : Nat → List Item) (l l2 : L) (t n : Nat) (hn : 0 < n) (hm : l.maxJ = t + n)
+    (hj : ∀ j, t < j → j ≤ t + n → ∃ bj, KV.get l.db.journals j = some bj ∧ bj.entries = (J j).map (fun p => entryOf p.1 p.2))
+    (hr : rollback l t = .ok l2) : Same l2.db (revertBlocks (blocksOf J t n) l.db) := by
+  obtain ⟨db', hl, hsame, _⟩ := rollbackLoop_spec J t n l.db hj
+  unfold rollback at hr
+  have h1 : ¬ l.maxJ < t := by omega
+  have h3 : ¬ l.maxJ = t := by omega
+  simp only [h1, if_false, h3] at hr
+  split at hr
+  · cases hr
+  · simp only [hm, Nat.add_sub_cancel_left, hl] at hr
+    simp only [Bool.not_true, Bool.false_eq_true, if_false] at hr
+    split at hr
+    · split at hr
+      · injection hr with hr
+        subst hr
+        exact hsame
+      · cases hr
+    · injection hr with hr
+      subst hr
+      exact hsame
 
 end Bxh.Ledger
